@@ -7,6 +7,16 @@ NOTES = ("All checks: ./check <ID> quick|thorough; exit 0 held / 1 VIOLATION / 2
          "every run. known_findings.json lists open findings and fixed: records; replays/<ID>/ holds committed regression cases.")
 NOT_APPLICABLE = {}
 CHECKS = {
+    "C01": {
+        "technique": "property-based testing: Hypothesis-generated (type expression, canonical value, options, admissible name_mapping recipe) with a round-trip (inverse) oracle, plus JSON and AdaptixJSON legs",
+        "text": "Exploration: thousands (quick) to hundreds of thousands (thorough) of distinct generated programs (type x recipe x options) each with a generated value; dump must succeed, load(dump(x)) must be type-exactly equal to x, also after json.dumps/json.loads and through AdaptixJSON bind/result.",
+        "note": "Trusted: the harness's type-aware comparator and class builder; unions are generated with provably non-overlapping, dumpable cases; values stay inside documented lossless ranges (timedelta, Pattern flags).",
+    },
+    "C04": {
+        "technique": "property-based testing / fuzzing: Hypothesis-generated type expressions x data soup (arbitrary data and near-valid mutations of valid dumps) x 6 modes with an exception-validity oracle; user-code sub-check for the second sentence",
+        "text": "Exploration: every escaping exception tree must consist of LoadError nodes only; with user code raising ArithmeticError the escaping exception must not be classified as LoadError.",
+        "note": "Trusted: exception flattening helper; input nesting capped (RecursionError on over-deep data not counted); ExtraKwargs excluded (documented TypeError zone).",
+    },
     "C18": {
         "technique": "property-based testing: Hypothesis-generated enum/flag classes x provider options, exhaustive enumeration of members / 2^n flag combinations / candidate representations per class against a 3-valued reference derived from the provider docstrings",
         "text": "Exploration: thousands of generated (class, provider, options) programs; per program every member, every OR-combination and ~100 candidate representations are enumerated; round-trip identity, dump injectivity, creation success and accept/reject agreement with an independent reference are asserted.",
